@@ -894,6 +894,87 @@ class Canon:
                 T().visit(fn)
         ast.fix_missing_locations(self.tree)
 
+    def unroll_reflective_loops(self):
+        """P7: reflective attribute access over a literal tuple of names is the explicit statements:
+        `for n in ("a", "b"): setattr(o, n, v)` -> `o.a = v; o.b = v`, `{n: getattr(o, n) for n in ("a", "b")}` ->
+        `{"a": o.a, "b": o.b}`, and `getattr(o, "a")` / `setattr(o, "a", v)` with a constant identifier.  Only loops whose body
+        uses the loop variable in nothing but such calls (and as a plain value) are unrolled."""
+        import keyword
+
+        def const_names(it):
+            if isinstance(it, (ast.Tuple, ast.List)) and it.elts and all(isinstance(e, ast.Constant) and isinstance(e.value, str) for e in it.elts):
+                return [e.value for e in it.elts]
+            return None
+
+        def ident(sv) -> bool:
+            return sv.isidentifier() and not keyword.iskeyword(sv)
+
+        class Fold(ast.NodeTransformer):
+            def visit_Call(self, n):
+                self.generic_visit(n)
+                if isinstance(n.func, ast.Name) and n.func.id == "getattr" and len(n.args) == 2 and not n.keywords \
+                        and isinstance(n.args[1], ast.Constant) and isinstance(n.args[1].value, str) and ident(n.args[1].value):
+                    return ast.copy_location(ast.Attribute(value=n.args[0], attr=n.args[1].value, ctx=ast.Load()), n)
+                return n
+
+            def visit_Expr(self, n):
+                self.generic_visit(n)
+                c = n.value
+                if isinstance(c, ast.Call) and isinstance(c.func, ast.Name) and c.func.id == "setattr" and len(c.args) == 3 and not c.keywords \
+                        and isinstance(c.args[1], ast.Constant) and isinstance(c.args[1].value, str) and ident(c.args[1].value):
+                    return ast.copy_location(ast.Assign(targets=[ast.Attribute(value=c.args[0], attr=c.args[1].value, ctx=ast.Store())], value=c.args[2]), n)
+                return n
+
+        def reflective_only(body, var) -> bool:
+            uses = [n for b in body for n in ast.walk(b) if isinstance(n, ast.Name) and n.id == var]
+            if not uses or any(isinstance(n.ctx, ast.Store) for n in uses):
+                return False
+            refl = set()
+            for b in body:
+                for c in ast.walk(b):
+                    if isinstance(c, ast.Call) and isinstance(c.func, ast.Name) and c.func.id in ("setattr", "getattr") and len(c.args) >= 2 \
+                            and isinstance(c.args[1], ast.Name) and c.args[1].id == var:
+                        refl.add(id(c.args[1]))
+            return bool(refl) and not any(isinstance(n, (ast.Break, ast.Continue)) for b in body for n in ast.walk(b))
+
+        outer = self
+
+        class Unroll(ast.NodeTransformer):
+            def visit_For(self, n):
+                self.generic_visit(n)
+                names = const_names(n.iter)
+                if names is None or not isinstance(n.target, ast.Name) or n.orelse or not reflective_only(n.body, n.target.id):
+                    return n
+                out = []
+                for nm in names:
+                    for b in n.body:
+                        c = _Subst({n.target.id: ast.Constant(value=nm)}).visit(copy.deepcopy(b))
+                        out.append(ast.copy_location(Fold().visit(c), n))
+                outer.stats["reflective_loops_unrolled"] = outer.stats.get("reflective_loops_unrolled", 0) + 1
+                return out
+
+            def visit_DictComp(self, n):
+                self.generic_visit(n)
+                if len(n.generators) != 1 or n.generators[0].ifs or not isinstance(n.generators[0].target, ast.Name):
+                    return n
+                names = const_names(n.generators[0].iter)
+                var = n.generators[0].target.id
+                if names is None or not any(isinstance(c, ast.Call) and isinstance(c.func, ast.Name) and c.func.id == "getattr" and len(c.args) >= 2
+                                            and isinstance(c.args[1], ast.Name) and c.args[1].id == var for c in ast.walk(n.value)):
+                    return n
+                keys, vals = [], []
+                for nm in names:
+                    sub = _Subst({var: ast.Constant(value=nm)})
+                    keys.append(sub.visit(copy.deepcopy(n.key)))
+                    vals.append(Fold().visit(sub.visit(copy.deepcopy(n.value))))
+                outer.stats["reflective_loops_unrolled"] = outer.stats.get("reflective_loops_unrolled", 0) + 1
+                return ast.copy_location(ast.Dict(keys=keys, values=vals), n)
+
+        for q, fn, container, cls in self._functions():
+            if q in self.ref_funcs:
+                Unroll().visit(fn)
+        ast.fix_missing_locations(self.tree)
+
     def fold_len(self):
         class T(ast.NodeTransformer):
             def visit_Call(self, node):
@@ -937,6 +1018,7 @@ class Canon:
         self.fold_len()
         self.fold_constants()
         self.inline_helpers()
+        self.unroll_reflective_loops()
         self.normalise_empty_arms()
         self.propagate_locals()
         self.propagate_adjacent()
